@@ -1,1 +1,108 @@
-From Util Require Import Common.Base Common.ListLemmas RefCount.Model RefCount.Proofs.
+(* C09 - refcount: while there is a context and a reference, a resolver call is in progress or its latest result has
+   been delivered to the target containers and to every reference callback (also those added later); released() drops
+   the value and resolves afresh; the resolver never runs in two calls at once; AddRef / Release / SetContext never
+   panic or deadlock.
+   Statements only, about the gate-level model RefCount.Model (REPAIRED code), for ALL event lists.
+   Liveness is stated as quiescence safety: [quiescent s] = no internal step is enabled (no resolve goroutine at its
+   first gate or store gate, no blocked goroutine whose wake-up condition holds, no parked asynchronous released(), no
+   Release parked before its removeRef section, no WaitWithReleased goroutine parked).  "Never deadlock": every API
+   call is one total section of the model (the mutex is never held across a gate), so nothing can block a call. *)
+From Util Require Import Common.Base Common.ListLemmas RefCount.Model RefCount.Proofs RefCount.ProofsC08 RefCount.ProofsC09.
+
+(* the resolver is never running in two calls at once; even stronger, from entering the resolver to the end of the
+   store section *)
+Theorem c09_at_most_one_resolver : forall ku es, cnt in_resolver (gs (run repaired (init ku) es)) <= 1.
+Proof. exact at_most_one_in_resolver. Qed.
+Print Assumptions c09_at_most_one_resolver.
+
+Theorem c09_at_most_one_between_enter_and_store : forall ku es, cnt busy (gs (run repaired (init ku) es)) <= 1.
+Proof. exact at_most_one_busy. Qed.
+Print Assumptions c09_at_most_one_between_enter_and_store.
+
+(* a goroutine passes its first select only when every earlier goroutine has finished (closed its done channel) *)
+Theorem c09_enter_only_after_all_earlier : forall ku es g x,
+  let s := run repaired (init ku) es in
+  nth_error (gs s) g = Some x -> act x = true -> forall j y, j < g -> nth_error (gs s) j = Some y -> gdone y = true.
+Proof. exact enter_only_after_all_earlier. Qed.
+Print Assumptions c09_enter_only_after_all_earlier.
+
+(* the pinned code before the D10 repair: two resolver calls overlap *)
+Theorem c09_pinned_d10_refuted : cnt in_resolver (gs (run pinned_d10 (init false) d10_witness)) = 2.
+Proof. exact d10_refuted. Qed.
+
+(* progress: in a quiescent state with a context and a reference, a resolver call is in progress, or the latest
+   result (value or error) is in the target containers and was the last notification of every reference callback *)
+Theorem c09_progress : forall ku es, Forall wf_ev es ->
+  let s := run repaired (init ku) es in
+  quiescent s = true -> kctx s <> 0 -> nrefs s > 0 ->
+  (exists g, g < length (gs s) /\ in_resolver (getg s g) = true) \/
+  (resolved s = true /\
+   (verr s = 0 -> target s = value s /\ terr s = 0) /\ (verr s <> 0 -> terr s = verr s) /\
+   (forall r x, nth_error (refs s) r = Some x -> rin x = true -> rkind x <> KNil -> rlast x = Some (NRes (value s) (verr s)))).
+Proof. intros ku es Hwf. exact (progress _ (run_inv ku es Hwf) (run_chain ku es)). Qed.
+Print Assumptions c09_progress.
+
+(* there is always a goroutine of the current generation on its way while context + reference + nothing resolved *)
+Theorem c09_current_goroutine_exists : forall ku es, Forall wf_ev es ->
+  let s := run repaired (init ku) es in
+  kctx s <> 0 -> nrefs s > 0 -> resolved s = false ->
+  exists g, g < length (gs s) /\ gnonce (getg s g) = nonce s /\ gdone (getg s g) = false.
+Proof. intros ku es Hwf. destruct (run_inv ku es Hwf) as [_ [_ [_ P]]]. exact P. Qed.
+Print Assumptions c09_current_goroutine_exists.
+
+(* delivery, in every reachable state (not only quiescent ones): a stored result is in the target containers and is the
+   last notification of every reference in the set with a callback - this covers references added later *)
+Theorem c09_delivered_when_resolved : forall ku es, Forall wf_ev es ->
+  let s := run repaired (init ku) es in
+  resolved s = true -> delivered s.
+Proof. intros ku es Hwf. exact (delivered_when_resolved _ (run_inv ku es Hwf)). Qed.
+Print Assumptions c09_delivered_when_resolved.
+
+(* released() of the stored generation: the value is dropped (containers cleared, release function called or none) and,
+   with a context and a reference, a fresh resolve goroutine of a new generation is started *)
+Theorem c09_released_restarts : forall ku es, Forall wf_ev es ->
+  let s := run repaired (init ku) es in
+  let s' := released_section s (nonce s) in
+  resolved s' = false /\ target s' = 0 /\ terr s' = 0 /\ vrel s' = None /\
+  (kctx s <> 0 -> nrefs s > 0 ->
+   length (gs s') = S (length (gs s)) /\ gnonce (getg s' (length (gs s))) = nonce s' /\ gpcv (getg s' (length (gs s))) = GGate0 /\
+   nonce s' = S (nonce s)).
+Proof. intros ku es Hwf. exact (released_restarts _ (run_inv ku es Hwf)). Qed.
+Theorem c09_released_of_stored_generation_fires : forall ku es, Forall wf_ev es ->
+  let s := run repaired (init ku) es in
+  resolved s = true -> step repaired s (EReleased (vgen s)) = released_section s (nonce s).
+Proof. intros ku es Hwf. exact (released_of_stored_generation_fires _ (run_inv ku es Hwf)). Qed.
+Print Assumptions c09_released_restarts.
+Print Assumptions c09_released_of_stored_generation_fires.
+
+(* AddRef (also with a nil callback), Release and SetContext never panic *)
+Theorem c09_api_total : forall ku es, panicked (run repaired (init ku) es) = false.
+Proof. exact never_panics. Qed.
+Print Assumptions c09_api_total.
+
+(* the pinned code before the D9 repair: AddRef(nil) on a resolved container calls the nil callback *)
+Theorem c09_pinned_d9_refuted : panicked (run pinned_d9 (init false) d9_witness) = true.
+Proof. exact d9_refuted. Qed.
+
+(* ---- non-vacuity ---- *)
+Example c09_example_delivered :
+  let es := [ESetCtx 1; EAddRef 1; EProceed 0 true; EResReturn 0 1 false 0; EStore 0; EAddRef 1; EAddRef 0] in
+  let s := run repaired (init false) es in
+  Forall wf_ev es /\ quiescent s = true /\ kctx s <> 0 /\ nrefs s = 3 /\ resolved s = true /\ target s = 1 /\
+  map rlast (refs s) = [Some (NRes 1 0); Some (NRes 1 0); None] /\ panicked s = false.
+Proof. split; [repeat constructor; discriminate | vm_compute; repeat split; try reflexivity; discriminate]. Qed.
+
+Example c09_example_in_progress :
+  let s := run repaired (init false) [ESetCtx 1; EAddRef 1; EProceed 0 true] in
+  quiescent s = true /\ in_resolver (getg s 0) = true /\ resolved s = false.
+Proof. vm_compute. repeat split; reflexivity. Qed.
+
+Example c09_example_error_delivered :
+  let s := run repaired (init false) [ESetCtx 1; EAddRef 1; EProceed 0 true; EResReturn 0 1 false 5; EStore 0] in
+  quiescent s = true /\ resolved s = true /\ target s = 0 /\ terr s = 5 /\ map rlast (refs s) = [Some (NRes 1 5)].
+Proof. vm_compute. repeat split; reflexivity. Qed.
+
+Example c09_example_released_restarts :
+  let s := run repaired (init false) [ESetCtx 1; EAddRef 1; EProceed 0 true; EResReturn 0 1 true 0; EStore 0; EReleased 0] in
+  resolved s = false /\ target s = 0 /\ length (gs s) = 2 /\ map rlast (refs s) = [Some NGone].
+Proof. vm_compute. repeat split; reflexivity. Qed.
